@@ -15,7 +15,7 @@ CONSTANTS
   NoWitnessRecheck = FALSE
   NoFpbFilter = FALSE
   Probe = FALSE
-  FeeRecheck = "asis"
+  FeeRecheck = "exact"
 INVARIANTS ProposableInv AdmitAgrees
 PROPERTIES PoolSoundStep
 CHECK_DEADLOCK FALSE
